@@ -22,7 +22,7 @@ TIERS = {
 REQUIRED_BUCKETS = ['section:none-marker', 'section:scoped', 'section:provider', 'section:macro', 'section:constant-omitted', 'param:default-shown',
                     'param:binding-shown', 'param:caller-supplied-omitted', 'param:caller-supplied-once-gin-once', 'param:denylisted-default-omitted',
                     'param:nonrepresentable-omitted', 'param:nonrepresentable-default-omitted', 'replay:done', 'history:rebind', 'history:5+calls',
-                    'shape:method', 'shape:init', 'shape:fn', 'override:keyword-on-reference', 'never-called-configurable-bound', 'history:failed-call-on-unbound-macro', 'history:rebind-equal-but-different']
+                    'shape:method', 'shape:init', 'shape:fn', 'override:keyword-on-reference', 'never-called-configurable-bound', 'history:failed-call-on-unbound-macro', 'history:rebind-equal-but-different', 'override:gin.REQUIRED-marker', 'history:failed-call-after-successful-call']
 ORACLE_COUNTERS = ['oracle_evals', 'texts_compared', 'replays']
 _S = {}
 HDR = re.compile(r'^# Parameters for (.+):$')
@@ -163,8 +163,9 @@ def iter_cases(ctx, rng, n):
       over = {}
       for x in probes.all_named(specs[ci]):
         if rng.random() < 0.3:
-          over[x] = rng.choice(['kw', 'kw', 'pos'])
-      history.append(['call', ci, rng.choice([[], [], ['a'], ['a', 'b'], ['b'], ['c'], ['a', 'c'], ['a', 'b', 'c'], ['a', 'b', 'a', 'b']]), over])
+          over[x] = rng.choice(['kw', 'kw', 'pos', 'req-kw', 'req-pos'])
+      history.append(['call', ci, rng.choice([[], [], ['a'], ['a', 'b'], ['b'], ['c'], ['a', 'c'], ['a', 'b', 'c'], ['a', 'b', 'a', 'b']]), over,
+                      rng.random() < 0.15])
     yield {'specs': specs, 'binds': binds, 'graph': graph, 'macros': macros, 'history': history}
 
 
@@ -268,7 +269,8 @@ def run_history(ctx, case, plist, objs, model, phase):
         ctx.bucket('history:rebind')
       obs.append(('rebind',))
       continue
-    _, ci, scope, over = h
+    _, ci, scope, over = h[:4]
+    then_fail = len(h) > 4 and h[4]
     p = plist[ci]
     spec = p.spec
     pos = probes.positional_names(spec)
@@ -276,6 +278,7 @@ def run_history(ctx, case, plist, objs, model, phase):
     P, K = [], {}
     prefix = True
     supplied = []
+    needed = []
     bound_here = models.overlay(model.bind, p.selector, scope) if model else None
     for x in names:
       o = over.get(x)
@@ -284,8 +287,21 @@ def run_history(ctx, case, plist, objs, model, phase):
         # keep the call well-formed: parameters without default that have no applicable binding are supplied by keyword
         no_default = x in spec['pos'] or any(k[0] == x and not k[1] for k in spec['kwonly'])
         need = no_default and x not in bound_here
+        if o in ('req-kw', 'req-pos') and x not in bound_here:
+          o = None   # gin.REQUIRED is only passed where a binding applies (unfilled REQUIRED is C10's subject)
         h[3][x] = o = (o or 'kw') if need else o
-      if o == 'pos' and prefix and x in pos and pos.index(x) == len(P):
+        if need:
+          needed.append(x)
+      if o in ('req-kw', 'req-pos'):
+        # the caller marks the parameter gin.REQUIRED: Gin supplies it, so it belongs in the record
+        if phase == 'first':
+          ctx.bucket('override:gin.REQUIRED-marker')
+        if o == 'req-pos' and prefix and x in pos and pos.index(x) == len(P):
+          P.append(gin.REQUIRED)
+        else:
+          prefix = False
+          K[x] = gin.REQUIRED
+      elif o == 'pos' and prefix and x in pos and pos.index(x) == len(P):
         P.append(['caller', x])
         supplied.append(x)
       elif o:
@@ -302,6 +318,21 @@ def run_history(ctx, case, plist, objs, model, phase):
     provs = sorted((_S['by_pid'][r.pid], r.scope) for r in recs if r.pid in _S['by_pid'])
     received = cons[0].received if cons else None
     obs.append(('call', ci, tuple(scope), normalise(received), provs))
+    if then_fail and needed and phase == 'first' and needed[0] in K:
+      # the same call again, but one parameter nobody provides is left out: TypeError; what the earlier calls recorded must survive
+      K2 = {k: v for k, v in K.items() if k != needed[0]}
+      try:
+        with gin.config_scope(list(scope)):
+          probes.call_probe(p, list(P), K2)
+        ctx.check(False, 'call-with-missing-argument-succeeded', 'call without %r succeeded' % needed[0])
+      except TypeError:
+        ctx.bucket('history:failed-call-after-successful-call')
+      if model is not None:
+        # providers of Gin-supplied references run before the failure is detected
+        gs2 = models.overlay(model.bind, p.selector, scope)
+        for n_, t_ in gs2.items():
+          if n_ not in supplied:
+            model.evaluate(t_, scope)
     if model is not None:
       before = len(model.prov_calls)
       gs = model.call_consumer(ci, scope, supplied)
